@@ -197,6 +197,8 @@ def concrete_playback(crate, harness, cap_s, mem_gb=10, rustflags=None, extra_ar
     tests = re.findall(r"```\n(/// Test generated for harness.*?)```", out, re.S)
     if not tests:
         tests = re.findall(r"(#\[test\]\nfn kani_concrete_playback_.*?\n}\n)", out, re.S)
+    # a long check description may wrap onto lines that are not doc comments: keep the test itself only
+    tests = [t[t.index("#[test]"):] if "#[test]" in t else t for t in tests]
     seen, uniq = set(), []
     for t in tests:
         tn = re.search(r"fn (kani_concrete_playback_\w+)\(", t)
